@@ -38,6 +38,12 @@ extern ssize_t mpt_outdata_push(MPT_STRUCT(outdata) *od, size_t len, const void 
 	if (od->state & MPT_OUTFLAG(Received)) {
 		return MPT_MESGERR(ActiveInput);
 	}
+	/* no message in progress: buffer (shared with mpt_outdata_recv) holds processed input only */
+	if (!(od->state & MPT_OUTFLAG(Active))
+	    && (buf = od->buf._buf)
+	    && buf->_used > od->_smax) {
+		buf->_used = od->_smax;
+	}
 	if (len) {
 		/* reset outpu data */
 		if (!src) {
